@@ -1510,6 +1510,46 @@ mod api {
                 }
             }
         }
+        // every key of both layouts, plain and AltGr, alone and after a consonant, with ANSI on: every index of the returned suggestion
+        // can be read as pre-edit text and is the Bijoy encoding (C02, C16).  Carve-out = the recorded known finding: texts that
+        // contain U+09C4, for which the converter of the dependency panics; everything else is reported
+        {
+            let table: Value = serde_json::from_str(&std::fs::read_to_string(crate::verif_driver::gen_file("keytable.json")).unwrap_or("[]".into())).unwrap_or(json!([]));
+            let mut known = 0u64;
+            for layout_path in [crate::verif_driver::probhat_layout(), crate::verif_driver::synthetic_layout()] {
+                for list in [false, true] {
+                    let mut cfgv = fixed_cfg(json!({"fixed_suggestion": list, "ansi": true, "fixed_numpad": true}));
+                    cfgv["layout"] = json!(layout_path);
+                    let mut s = Sess::new(cfgv.clone());
+                    let mut reported = 0;
+                    for r in table.as_array().cloned().unwrap_or_default() {
+                        let code = r["code"].as_u64().unwrap_or(0) as u16;
+                        for m in [0u8, 2u8] { for lead in [false, true] {
+                            o.cases += 1;
+                            if lead { let _ = s.key(if layout_path.ends_with("Probhat.json") { 'k' } else { 't' }, 0); }
+                            let sg = s.code_mod(code, m, 0);
+                            let n = if sg.is_empty() { 0 } else if sg.is_lonely() { 1 } else { sg.len() };
+                            for i in 0..n {
+                                let cand = if sg.is_lonely() { sg.get_lonely_suggestion().to_string() } else { sg.get_suggestions()[i].clone() };
+                                let read = std::panic::catch_unwind(std::panic::AssertUnwindSafe(|| sg.get_pre_edit_text(i)));
+                                match read {
+                                    Err(_) => {
+                                        if cand.contains('\u{09C4}') { known += 1; }
+                                        else if reported < 3 { reported += 1; o.fail(json!({"clause": "C02 C16 every index below the length can be read as pre-edit text (ANSI on)", "history": s.history(), "candidate": cand, "observed": "panic"})); }
+                                    }
+                                    Ok(pe) => {
+                                        if pe.chars().any(|c| ('\u{0980}'..='\u{09FF}').contains(&c)) && reported < 3 { reported += 1; o.fail(json!({"clause": "C16 no Bengali-block code point in ANSI pre-edit text", "history": s.history(), "candidate": cand, "observed": pe})); }
+                                    }
+                                }
+                            }
+                            s.finish();
+                            o.nontrivial += 1;
+                        }}
+                    }
+                }
+            }
+            o.domain = format!("{}; key sweep with ANSI on (read-outs of texts containing U+09C4 matched the recorded known finding {} times)", o.domain, known);
+        }
         // a choice learned outside ANSI mode (an emoji, the raw English text) and ANSI switched on afterwards -- on the live
         // context and in a new one over the same user files: nothing that cannot be encoded is offered
         let bad = |x: &String| x.chars().any(|c| c.is_ascii_alphabetic()) || x.chars().any(|c| (c as u32) >= 0x1F000 || ((c as u32) >= 0x2600 && (c as u32) < 0x2800));
